@@ -76,6 +76,15 @@ def task_outputs(a, env):
                 _call(C_.PopProve, bad)
     for skh in a["sks"]:
         sk = int(skh, 16)
+        # history: another key signs, then non-integers that compare equal to sk are refused, then sk is used
+        from fractions import Fraction
+        from decimal import Decimal
+        for s_ in a["suites"]:
+            C_ = suite_cls(s_)
+            _call(C_.Sign, 7, b"m")
+            for eqv in (float(sk) if sk < 2 ** 53 else Fraction(sk), Fraction(sk), Decimal(sk)):
+                _call(C_.Sign, eqv, b"m")
+                _call(C_.SkToPk, eqv)
         # history: the key with equal hash() (sk +- (2^61 - 1)) is used first; results ignored
         alt = sk + M61 if sk + M61 < R_ else sk - M61
         if 0 < alt < R_:
@@ -194,6 +203,33 @@ def replay_agg(a):
     return None if not bad else {"mismatches": bad}
 
 
+def length_case(n):
+    """Aggregate of n signatures (keys 3, 4, ..., one shared message) == the model's sum, for one list length"""
+    C = suite_cls("pop")
+    sigs = [MB.sign("pop", 3 + i, b"len") for i in range(n)]
+    want = ("ok", MB.g2_bytes(MB.core_sign_point(sum(3 + i for i in range(n)) % R_, b"len", MB.DST["pop"])))
+    got = _call(C.Aggregate, sigs)
+    got = ("ok", bytes(got[1])) if got[0] == "ok" and isinstance(got[1], (bytes, bytearray)) else got
+    return want, got
+
+
+def task_lengths(a, env):
+    r = R("Aggregate:every-list-length")
+    for n in a["ns"]:
+        exp, got = length_case(n)
+        r.ev += 1
+        r.dk.add(n)
+        if exp != got:
+            r.viol("C09:Aggregate:list-length", ME + ":replay_length", {"n": n}, exp, got, note="%d signatures" % n)
+    r.sample({"lengths": "%d..%d" % (a["ns"][0], a["ns"][-1])})
+    return r
+
+
+def replay_length(a):
+    exp, got = length_case(a["n"])
+    return None if exp == got else {"expected": exp, "observed": got}
+
+
 def deep_case(suite, depth):
     """SkToPk / Sign / PopProve called with `depth` caller frames on the stack (interpreter's default
     recursion limit): the model's bytes or RecursionError, never other bytes"""
@@ -264,4 +300,7 @@ def run(ctx):
         tasks.append(("agg", {"idx": [i]}))
     for s_ in ("basic", "aug", "pop"):
         tasks.append(("deep", {"suites": [s_], "step": 130 if ctx.quick else 45}))
+    top = 33 if ctx.quick else 96
+    for lo in range(4):
+        tasks.append(("lengths", {"ns": list(range(1 + lo, top, 4))}))
     ctx.pmap(ME, tasks)
